@@ -1,4 +1,4 @@
-SPECIFICATION Spec
+SPECIFICATION SpecL
 CONSTANTS
   QDen = 100
   CDen = 10
@@ -9,5 +9,5 @@ CONSTANTS
   Cfgs <- GateCfgs
   Kinds <- PlainKind
   Export = TRUE
-INVARIANTS Emit
+INVARIANTS L_Emit
 CHECK_DEADLOCK FALSE
